@@ -146,6 +146,14 @@ func c02Pipeline(src []byte) (out string, panicked string, stage string) {
 		})
 	}
 	syn("cue-all", cue.All(), cue.Docs(true))
+	if bytes.HasPrefix(src, []byte(c02SharedMarker)) {
+		// heavily shared DAG: the remaining stages print or visit the expanded tree
+		syn("cue-raw", cue.Raw())
+		if stage == "" {
+			stage = "ok"
+		}
+		return b.String(), panicked, stage
+	}
 	syn("cue-eval", cue.Final(), cue.Docs(true), cue.Attributes(true), cue.Optional(true), cue.Definitions(true))
 	syn("cue-concrete", cue.Final(), cue.Concrete(true))
 	syn("cue-raw", cue.Raw())
